@@ -295,7 +295,20 @@ def run(ctx, rep):
                                 v = const_operand_value(s['rv']['a'])
                                 if v is not None and v > 1:
                                     sel[arm] = v
-    layout = ctx.cache.get('bpb_reserved_1_offsets')  # filled by the codec analysis when available
+    layout = ctx.cache.get('bpb_reserved_1_offsets')
+    if layout is None:
+        # offsets of BPB.reserved_1 in the two boot-sector layouts, from the encoder's extracted field sequence (A10)
+        from rules import codec
+        E = facts.fns.get('fatfs::boot_sector::BootSector::serialize')
+        if E is not None:
+            offs = {}
+            for fat32 in (False, True):
+                rows, total = codec.with_offsets(codec.encoder_sequence(facts, E, fat32))
+                for o, w2, f in rows:
+                    if f == 'reserved_1':
+                        offs['fat32' if fat32 else 'fat12_16'] = o
+            if len(offs) == 2:
+                layout = offs
     want = layout or SPEC_STATUS_OFFSETS
     ok = consts == {want['fat12_16'], want['fat32']} and (not sel or (
         set(sel.values()) == consts and len(sel) == 2))
